@@ -22,7 +22,7 @@ FAULTS = ["VBadWriter", "VBoom", "VBadType", "VCtxBadWriter", "VWriteThenBoom", 
 SLICEABLE_OPS = ["VMul", "VMulDefault", "VAdd", "VAddDefault", "VAffine", "VAddNote", "FloatSquareOperation", "VInPlaceMul"]
 SLICEABLE_PROBES = ["VValueProbe", "VScaledProbe", "VOffsetProbe"]
 ODD_EXC = ["unicode_decode", "unicode_encode", "exception_group", "os_error", "key_error_tuple", "stop_iteration",
-           "empty_message", "two_arg_custom", "zero_division"]
+           "empty_message", "two_arg_custom", "zero_division", "wraps_exception", "key_error_frozenset", "value_error_bytes"]
 SWEEP_OPS = ["VMul", "VMulDefault", "VAdd", "VAffine", "VAddNote", "VPoly", "VMemoMul"]   # not VInPlaceMul: every step of a sweep is handed the same input object; whether an in-place operation may compound over the steps is not documented
 SWEEP_PROBES = ["VScaledProbe", "VOffsetProbe", "VMemoScaledProbe"]
 SWEEP_SRCS = ["VSrc", "VSrcDefault"]
